@@ -85,6 +85,7 @@ OPAQUE = {
         # query handler (`Packet`: `data`, `now`)
         "lean": "(Zc.Listener.MsgInfo × Zc.Listener.Packet)",
         "always_truthy": True,
+        "py_classes": ["DNSIncoming"],
         "immutable": True,
         "attrs": {"truncated": ("Bool", "{0}.1.truncated"), "data": ("Bytes", "{0}.2.data")},
     },
